@@ -161,7 +161,10 @@ def anm_ivs(g, p, how=None):
     out = [[t, rand_noise_spec(g)] for t in ts]
     for item in out:
         if g.random() < 0.3:
-            item[1] = ["held", "h%d" % g.getrandbits(20), item[1]]     # a distribution object the caller re-uses
+            # a distribution object the caller re-uses; the name carries a hash of the spec, so that one name can
+            # never stand for two different distributions within a run
+            from .canon import jkey
+            item[1] = ["held", "h%s_%d" % (jkey(item[1])[:10], g.getrandbits(20)), item[1]]
     return out
 
 
